@@ -10,6 +10,8 @@
 //!          | "v" v | "set" v str | "mac" v str | "imp" t v | "from" t name alias
 //!          | "attr" v a | "keys" v | "call" v | "req" | "ssuper" v | "sself" v m | "self" m
 //!          | "for" v k strs.. nitems items.. | "inmac" m arg str nitems items.. | "ae" mode nitems items..
+//!          | "bad" kind
+//! fam     := name [ "~" L S P U B ]   (configuration, see `Cfgv`)
 //!
 //! Result: `ok:<output>` | `err:<kind chain>` | `panic` | `hang` | `crash:<status>` | `syntax:<kind>`
 //! | `skipped` (after three hangs the remaining cases are not run).
@@ -49,6 +51,8 @@ enum Item {
     InMacro(usize, usize, String, Vec<Item>),
     /// `{% autoescape "mode" %}…{% endautoescape %}`
     AutoEsc(String, Vec<Item>),
+    /// `extends` / `include` with a name that is not a string (kinds 0..3)
+    BadTarget(usize),
 }
 use Item::*;
 
@@ -176,6 +180,10 @@ fn ser_item(it: &Item, out: &mut Vec<String>) {
             out.push(mode.clone());
             ser_items(body, out);
         }
+        BadTarget(k) => {
+            out.push("bad".into());
+            out.push(k.to_string());
+        }
     }
 }
 
@@ -247,6 +255,7 @@ impl<'a> Toks<'a> {
             }
             "inmac" => InMacro(self.num()?, self.num()?, self.next()?.to_string(), self.items()?),
             "ae" => AutoEsc(self.next()?.to_string(), self.items()?),
+            "bad" => BadTarget(self.num()?),
             other => return Err(format!("bad item tag {other}")),
         })
     }
@@ -274,13 +283,87 @@ fn parse_case(line: &str) -> Result<Case, String> {
     Ok(Case { fam, tmpls })
 }
 
-// ------------------------------------------------------------------ pretty printer (trusted, small)
-fn tname(names: &[String], i: usize) -> String {
-    names.get(i).cloned().unwrap_or_else(|| format!("t{i}.txt"))
+// ------------------------------------------------------------------ configuration of a case
+/// `fam~LSPUB`: loader-backed templates?, custom syntax?, path-join callback (templates live in
+/// directories and refer to each other relatively)?, undefined behaviour (0 lenient, 1 chainable,
+/// 2 semi-strict, 3 strict), block index used by the `render_block` streams
+#[derive(Clone, Copy, Debug, Default)]
+struct Cfgv {
+    loader: bool,
+    syntax: bool,
+    pathjoin: bool,
+    ub: u8,
+    blk: usize,
 }
 
-fn print_items(names: &[String], t: &Tmpl, items: &[Item], used: &mut Vec<usize>, out: &mut String) {
-    let tnames = names;
+fn cfg_of(fam: &str) -> Cfgv {
+    match fam.split_once('~') {
+        Some((_, c)) => {
+            let d: Vec<u8> = c.bytes().map(|b| b.wrapping_sub(b'0')).collect();
+            Cfgv {
+                loader: d.first() == Some(&1),
+                syntax: d.get(1) == Some(&1),
+                pathjoin: d.get(2) == Some(&1),
+                ub: d.get(3).copied().unwrap_or(0).min(3),
+                blk: d.get(4).copied().unwrap_or(0).min(2) as usize,
+            }
+        }
+        None => Cfgv::default(),
+    }
+}
+
+// ------------------------------------------------------------------ pretty printer (trusted, small)
+struct Pr<'a> {
+    exts: Vec<&'a str>,
+    cfg: Cfgv,
+}
+
+impl Pr<'_> {
+    fn ext(&self, i: usize) -> &str {
+        self.exts.get(i).copied().unwrap_or("txt")
+    }
+    /// the name template `i` is registered under
+    fn reg(&self, i: usize) -> String {
+        if self.cfg.pathjoin {
+            format!("d{}/t{i}.{}", i % 3, self.ext(i))
+        } else {
+            format!("t{i}.{}", self.ext(i))
+        }
+    }
+    /// how templates refer to template `i` (relative to their own directory under path joining)
+    fn rf(&self, i: usize) -> String {
+        if self.cfg.pathjoin {
+            format!("../d{}/t{i}.{}", i % 3, self.ext(i))
+        } else {
+            self.reg(i)
+        }
+    }
+    fn blk(&self, s: &str) -> String {
+        if self.cfg.syntax {
+            format!("<% {s} %>")
+        } else {
+            format!("{{% {s} %}}")
+        }
+    }
+    fn var(&self, s: &str) -> String {
+        if self.cfg.syntax {
+            format!("${{ {s} }}")
+        } else {
+            format!("{{{{ {s} }}}}")
+        }
+    }
+}
+
+/// `with context` / `without context` are accepted and mean nothing
+fn ctx_marker(k: usize) -> &'static str {
+    match k % 3 {
+        0 => "",
+        1 => " with context",
+        _ => " without context",
+    }
+}
+
+fn print_items(pr: &Pr, t: &Tmpl, items: &[Item], used: &mut Vec<usize>, out: &mut String) {
     for it in items {
         match it {
             Text(s) => out.push_str(s),
@@ -288,68 +371,88 @@ fn print_items(names: &[String], t: &Tmpl, items: &[Item], used: &mut Vec<usize>
                 used.push(*n);
                 let body = t.blocks.get(n).expect("block body in table");
                 if matches!(body.as_slice(), [Required]) {
-                    out.push_str(&format!("{{% block b{n} required %}}{{% endblock %}}"));
+                    out.push_str(&pr.blk(&format!("block b{n} required")));
+                    out.push_str(&pr.blk("endblock"));
                 } else {
-                    out.push_str(&format!("{{% block b{n} %}}"));
-                    print_items(names, t, body, used, out);
-                    out.push_str("{% endblock %}");
+                    out.push_str(&pr.blk(&format!("block b{n}")));
+                    print_items(pr, t, body, used, out);
+                    out.push_str(&pr.blk("endblock"));
                 }
             }
             Required => panic!("`required` only as the whole body of a block"),
-            SetSuper(v) => out.push_str(&format!("{{% set v{v} = super() %}}")),
-            SetSelf(v, m) => out.push_str(&format!("{{% set v{v} = self.b{m}() %}}")),
-            SelfCall(m) => out.push_str(&format!("{{{{ self.b{m}() }}}}")),
-            Super => out.push_str("{{ super() }}"),
+            SetSuper(v) => out.push_str(&pr.blk(&format!("set v{v} = super()"))),
+            SetSelf(v, m) => out.push_str(&pr.blk(&format!("set v{v} = self.b{m}()"))),
+            SelfCall(m) => out.push_str(&pr.var(&format!("self.b{m}()"))),
+            Super => out.push_str(&pr.var("super()")),
             Extends { exec, mode, t } => match mode {
-                's' => out.push_str(&format!("{{% extends \"{}\" %}}", tname(names, *t))),
-                'd' => out.push_str(&format!("{{% extends dyn{t} %}}")),
-                _ => out.push_str(&format!(
-                    "{{% if c{} %}}{{% extends \"{}\" %}}{{% endif %}}",
-                    *exec as u8,
-                    tname(names, *t)
-                )),
-            },
-            Incl { names, ign } => {
-                let ig = if *ign { " ignore missing" } else { "" };
-                if names.len() == 1 {
-                    out.push_str(&format!("{{% include \"{}\"{ig} %}}", tname(tnames, names[0])));
-                } else {
-                    let l: Vec<String> = names.iter().map(|n| format!("\"{}\"", tname(tnames, *n))).collect();
-                    out.push_str(&format!("{{% include [{}]{ig} %}}", l.join(", ")));
+                's' => out.push_str(&pr.blk(&format!("extends \"{}\"", pr.rf(*t)))),
+                'd' => out.push_str(&pr.blk(&format!("extends dyn{t}"))),
+                _ => {
+                    out.push_str(&pr.blk(&format!("if c{}", *exec as u8)));
+                    out.push_str(&pr.blk(&format!("extends \"{}\"", pr.rf(*t))));
+                    out.push_str(&pr.blk("endif"));
                 }
+            },
+            BadTarget(k) => out.push_str(&pr.blk(match k {
+                0 => "extends 42",
+                1 => "extends nope9",
+                2 => "include 42",
+                _ => "include nope9 ignore missing",
+            })),
+            Incl { names, ign } => {
+                let k = names.iter().sum::<usize>() + names.len() + *ign as usize;
+                let (before, after) = match k % 3 {
+                    2 => (ctx_marker(k), ""),
+                    _ => ("", ctx_marker(k)),
+                };
+                let ig = if *ign { " ignore missing" } else { "" };
+                let target = if names.len() == 1 {
+                    format!("\"{}\"", pr.rf(names[0]))
+                } else {
+                    let l: Vec<String> = names.iter().map(|n| format!("\"{}\"", pr.rf(*n))).collect();
+                    format!("[{}]", l.join(", "))
+                };
+                out.push_str(&pr.blk(&format!("include {target}{before}{ig}{after}")));
             }
-            EmitVar(v) => out.push_str(&format!("{{{{ v{v} }}}}")),
-            SetVar(v, s) => out.push_str(&format!("{{% set v{v} = \"{s}\" %}}")),
-            DefMacro(v, s) => out.push_str(&format!("{{% macro v{v}() %}}{s}{{% endmacro %}}")),
-            ImportAs(t, v) => out.push_str(&format!("{{% import \"{}\" as v{v} %}}", tname(names, *t))),
-            FromImport(t, n, a) => out.push_str(&format!("{{% from \"{}\" import v{n} as v{a} %}}", tname(names, *t))),
-            EmitAttr(v, a) => out.push_str(&format!("{{{{ v{v}.v{a} }}}}")),
-            EmitKeys(v) => out.push_str(&format!("{{{{ v{v}|sort|join(\",\") }}}}")),
-            CallVar(v) => out.push_str(&format!("{{{{ v{v}() }}}}")),
+            EmitVar(v) => out.push_str(&pr.var(&format!("v{v}"))),
+            SetVar(v, s) => out.push_str(&pr.blk(&format!("set v{v} = \"{s}\""))),
+            DefMacro(v, s) => {
+                out.push_str(&pr.blk(&format!("macro v{v}()")));
+                out.push_str(s);
+                out.push_str(&pr.blk("endmacro"));
+            }
+            ImportAs(t, v) => out.push_str(&pr.blk(&format!("import \"{}\" as v{v}{}", pr.rf(*t), ctx_marker(t + v)))),
+            FromImport(t, n, a) => {
+                out.push_str(&pr.blk(&format!("from \"{}\" import v{n} as v{a}{}", pr.rf(*t), ctx_marker(t + n + a))))
+            }
+            EmitAttr(v, a) => out.push_str(&pr.var(&format!("v{v}.v{a}"))),
+            EmitKeys(v) => out.push_str(&pr.var(&format!("v{v}|sort|join(\",\")"))),
+            CallVar(v) => out.push_str(&pr.var(&format!("v{v}()"))),
             Loop(v, vals, body) => {
                 let l: Vec<String> = vals.iter().map(|s| format!("\"{s}\"")).collect();
-                out.push_str(&format!("{{% for v{v} in [{}] %}}", l.join(", ")));
-                print_items(names, t, body, used, out);
-                out.push_str("{% endfor %}");
+                out.push_str(&pr.blk(&format!("for v{v} in [{}]", l.join(", "))));
+                print_items(pr, t, body, used, out);
+                out.push_str(&pr.blk("endfor"));
             }
             InMacro(m, arg, val, body) => {
-                out.push_str(&format!("{{% macro v{m}(v{arg}) %}}"));
-                print_items(names, t, body, used, out);
-                out.push_str(&format!("{{% endmacro %}}{{{{ v{m}(\"{val}\") }}}}"));
+                out.push_str(&pr.blk(&format!("macro v{m}(v{arg})")));
+                print_items(pr, t, body, used, out);
+                out.push_str(&pr.blk("endmacro"));
+                out.push_str(&pr.var(&format!("v{m}(\"{val}\")")));
             }
             AutoEsc(mode, body) => {
-                out.push_str(&format!("{{% autoescape \"{mode}\" %}}"));
-                print_items(names, t, body, used, out);
-                out.push_str("{% endautoescape %}");
+                out.push_str(&pr.blk(&format!("autoescape \"{mode}\"")));
+                print_items(pr, t, body, used, out);
+                out.push_str(&pr.blk("endautoescape"));
             }
         }
     }
 }
 
-fn source_of(names: &[String], t: &Tmpl) -> String {
+fn source_of(pr: &Pr, t: &Tmpl) -> String {
     let mut out = String::new();
     let mut used = vec![];
-    print_items(names, t, &t.layout, &mut used, &mut out);
+    print_items(pr, t, &t.layout, &mut used, &mut out);
     let mut u = used.clone();
     u.sort();
     let keys: Vec<usize> = t.blocks.keys().copied().collect();
@@ -400,65 +503,145 @@ fn innermost_detail(e: &Error) -> String {
 /// the render context of every case; `v0` carries every character the modes treat differently
 const V0: &str = "C<&\"'/\u{e9}0";
 
-fn names_of(c: &Case) -> Vec<String> {
-    c.tmpls.iter().enumerate().map(|(i, t)| format!("t{i}.{}", t.ext)).collect()
-}
-
-fn render_named(env: &Environment, names: &[String], name: &str) -> (String, String) {
+fn context(pr: &Pr) -> Value {
     let mut ctx: BTreeMap<String, Value> = BTreeMap::new();
     ctx.insert("c1".into(), Value::from(true));
     ctx.insert("c0".into(), Value::from(false));
     ctx.insert("v0".into(), Value::from(V0));
     for i in 0..100 {
-        ctx.insert(format!("dyn{i}"), Value::from(tname(names, i)));
+        ctx.insert(format!("dyn{i}"), Value::from(pr.rf(i)));
     }
-    let t = env.get_template(name).unwrap();
-    match t.render(Value::from(ctx)) {
+    Value::from(ctx)
+}
+
+fn res_of(r: Result<String, Error>) -> (String, String) {
+    match r {
         Ok(s) => (format!("ok:{s}"), "ok".to_string()),
         Err(e) => (format!("err:{}", kind_chain(&e)), innermost_detail(&e)),
     }
 }
 
-/// returns (result, detail tag for histograms, metamorphic verdict).  The metamorphic check:
-/// a wrapper template of a *different* auto-escape mode that consists of `{% include "t0…" %}`
-/// (sometimes inside an `{% autoescape %}` block) must render exactly what t0 renders on its own
-/// with the same variables (an error gets one `BadInclude` in front).
-fn run_case(c: &Case, variant: usize) -> (String, String, String) {
-    let names = names_of(c);
-    let sources: Vec<String> = c.tmpls.iter().map(|t| source_of(&names, t)).collect();
-    let r = guarded(|| {
-        let mut env = Environment::new();
-        for (i, s) in sources.iter().enumerate() {
-            if let Err(e) = env.add_template_owned(names[i].clone(), s.clone()) {
-                return (format!("syntax:{}", error_kind_name(&e)), "syntax".to_string(), "skip".to_string());
+/// the path join callback of the documentation: `./x` and `../x` are relative to the directory
+/// of the template that contains the tag
+fn join_path<'a>(name: &'a str, parent: &str) -> std::borrow::Cow<'a, str> {
+    if !name.starts_with("./") && !name.starts_with("../") {
+        return std::borrow::Cow::Borrowed(name);
+    }
+    let mut rv: Vec<&str> = parent.split('/').collect();
+    rv.pop();
+    for seg in name.split('/') {
+        match seg {
+            "." => {}
+            ".." => {
+                rv.pop();
             }
+            s => rv.push(s),
         }
-        let (res, detail) = render_named(&env, &names, &names[0]);
-        if detail == "recursion-limit" {
+    }
+    std::borrow::Cow::Owned(rv.join("/"))
+}
+
+fn make_env(cfg: Cfgv, sources: &[(String, String)]) -> Result<Environment<'static>, Error> {
+    let mut env = Environment::new();
+    if cfg.syntax {
+        env.set_syntax(
+            minijinja::syntax::SyntaxConfig::builder()
+                .block_delimiters("<%", "%>")
+                .variable_delimiters("${", "}")
+                .comment_delimiters("<#", "#>")
+                .build()
+                .unwrap(),
+        );
+    }
+    if cfg.pathjoin {
+        env.set_path_join_callback(join_path);
+    }
+    env.set_undefined_behavior(match cfg.ub {
+        1 => minijinja::UndefinedBehavior::Chainable,
+        2 => minijinja::UndefinedBehavior::SemiStrict,
+        3 => minijinja::UndefinedBehavior::Strict,
+        _ => minijinja::UndefinedBehavior::Lenient,
+    });
+    if cfg.loader {
+        // loader-backed: the templates are compiled on first use
+        let map: BTreeMap<String, String> = sources.iter().cloned().collect();
+        env.set_loader(move |name| Ok(map.get(name).cloned()));
+        // surface syntax errors of the generator like add_template would
+        for (n, _) in sources {
+            env.get_template(n)?;
+        }
+    } else {
+        for (n, s) in sources {
+            env.add_template_owned(n.clone(), s.clone())?;
+        }
+    }
+    Ok(env)
+}
+
+struct Outcome {
+    res: String,
+    detail: String,
+    meta: String,
+    rblock: String,
+    fresh: String,
+}
+
+/// Renders t0 and, with the same environment:
+/// * the metamorphic wrapper: a template of a *different* auto-escape mode that consists of
+///   `{% include "t0…" %}` (sometimes inside an `{% autoescape %}` block) must render exactly what
+///   t0 renders on its own with the same variables (an error gets one `BadInclude` in front);
+/// * `render_captured` + `State::render_block("b<B>")`;
+/// * `new_state().render_block("b<B>")`.
+fn run_case(c: &Case, variant: usize) -> Outcome {
+    let cfg = cfg_of(&c.fam);
+    let pr = Pr { exts: c.tmpls.iter().map(|t| t.ext.as_str()).collect(), cfg };
+    let mut sources: Vec<(String, String)> =
+        c.tmpls.iter().enumerate().map(|(i, t)| (pr.reg(i), source_of(&pr, t))).collect();
+    let wexts = ["html", "txt", "json", "xml.j2"];
+    let wext = wexts[variant % 4];
+    let inc = pr.blk(&format!("include \"{}\"", pr.rf(0)));
+    let wsrc = match (variant / 4) % 3 {
+        0 => inc,
+        1 => format!("{}{inc}{}", pr.blk("autoescape \"html\""), pr.blk("endautoescape")),
+        _ => format!("{}{inc}{}", pr.blk("autoescape \"none\""), pr.blk("endautoescape")),
+    };
+    let wname = if cfg.pathjoin { format!("d0/w.{wext}") } else { format!("w.{wext}") };
+    sources.push((wname.clone(), wsrc));
+    let skip = |res: String, detail: String| Outcome { res, detail, meta: "skip".into(), rblock: "skip".into(), fresh: "skip".into() };
+    let r = guarded(|| {
+        let env = match make_env(cfg, &sources) {
+            Ok(env) => env,
+            Err(e) => return skip(format!("syntax:{}", error_kind_name(&e)), "syntax".to_string()),
+        };
+        let main = pr.reg(0);
+        let t = env.get_template(&main).unwrap();
+        let (res, detail) = res_of(t.render(context(&pr)));
+        let bname = format!("b{}", cfg.blk);
+        let rblock = match t.render_captured(context(&pr)) {
+            Ok(mut captured) => res_of(captured.with_state_mut(|state| state.render_block(&bname))).0,
+            Err(e) => format!("err:{}", kind_chain(&e)),
+        };
+        let fresh = res_of(t.new_state().render_block(&bname)).0;
+        let meta = if detail == "recursion-limit" {
             // ten more units of depth in front of a run that hits the limit: not comparable
-            return (res, detail, "skip".to_string());
-        }
-        let wexts = ["html", "txt", "json", "xml.j2"];
-        let wext = wexts[variant % 4];
-        let inc = format!("{{% include \"{}\" %}}", names[0]);
-        let wsrc = match (variant / 4) % 3 {
-            0 => inc,
-            1 => format!("{{% autoescape \"html\" %}}{inc}{{% endautoescape %}}"),
-            _ => format!("{{% autoescape \"none\" %}}{inc}{{% endautoescape %}}"),
+            "skip".to_string()
+        } else {
+            let (wres, _) = res_of(env.get_template(&wname).unwrap().render(context(&pr)));
+            let expect = match res.strip_prefix("err:") {
+                Some(chain) => format!("err:BadInclude>{chain}"),
+                None => res.clone(),
+            };
+            if wres == expect {
+                format!("same:{wext}")
+            } else {
+                format!("diff:{wname}:{wres}")
+            }
         };
-        let wname = format!("w.{wext}");
-        env.add_template_owned(wname.clone(), wsrc).unwrap();
-        let (wres, _) = render_named(&env, &names, &wname);
-        let expect = match res.strip_prefix("err:") {
-            Some(chain) => format!("err:BadInclude>{chain}"),
-            None => res.clone(),
-        };
-        let meta = if wres == expect { format!("same:{wext}") } else { format!("diff:{wname}:{wres}") };
-        (res, detail, meta)
+        Outcome { res, detail, meta, rblock, fresh }
     });
     match r {
         Ok(x) => x,
-        Err(msg) => ("panic".to_string(), format!("panic:{}", msg.replace(['\t', '\n'], " ")), "skip".to_string()),
+        Err(msg) => skip("panic".to_string(), format!("panic:{}", msg.replace(['\t', '\n'], " "))),
     }
 }
 
@@ -921,6 +1104,31 @@ fn error_families(out: &mut Vec<Case>) {
         let t2 = simple(vec![tx("T2".into()), CallBlock(0)], vec![(0, vec![tx("T2:b0".into())])]);
         out.push(Case { fam: "double-extends".into(), tmpls: vec![t0, t1, t2] });
     }
+    // names that are not strings
+    for k in 0..4usize {
+        for place in 0..3usize {
+            let mut l = vec![tx("T0:a".into())];
+            let mut blocks = vec![];
+            match place {
+                0 => l.push(BadTarget(k)),
+                1 => {
+                    l.push(ext('s', 1));
+                    l.push(BadTarget(k));
+                }
+                _ => {
+                    l.push(CallBlock(0));
+                    blocks.push((0, vec![BadTarget(k)]));
+                }
+            }
+            l.push(tx("T0:z".into()));
+            if place == 2 && k < 2 {
+                continue; // extends inside a block is outside the model
+            }
+            let t0 = simple(l, blocks);
+            let t1 = simple(vec![tx("T1".into())], vec![]);
+            out.push(Case { fam: "bad-name".into(), tmpls: vec![t0, t1] });
+        }
+    }
     // extends inside a loop: executed twice
     {
         let t0 = simple(vec![Loop(1, vec!["a".into(), "b".into()], vec![tx("T0:in".into())]), ext('s', 1)], vec![]);
@@ -1184,6 +1392,23 @@ fn cases(tier: &str) -> Vec<Case> {
     for _ in 0..n_extra {
         out.push(random_chain(&mut rng, true));
     }
+    // every case gets an environment configuration and an entry-point parameter (deterministic
+    // in its position): loader-backed templates, custom syntax, path-join callback with
+    // relative names, undefined behaviour, block index for the render_block streams
+    for (k, c) in out.iter_mut().enumerate() {
+        let mut h = Rng::new(k as u64 ^ 0xC06);
+        let l = h.below(2);
+        let sy = h.below(2);
+        let p = h.below(2);
+        let u = match h.below(6) {
+            0 => 1,
+            1 => 2,
+            2 => 3,
+            _ => 0,
+        };
+        let b = h.below(3);
+        c.fam = format!("{}~{l}{sy}{p}{u}{b}", c.fam);
+    }
     out
 }
 
@@ -1194,8 +1419,8 @@ fn work(tier: &str, start: usize) {
     let mut out = out.lock();
     let first = start.min(cs.len());
     for (k, c) in cs[first..].iter().enumerate() {
-        let (r, detail, meta) = run_case(c, first + k);
-        writeln!(out, "{}\t{}\t{}\t{}", ser_case(c), r, detail, meta).unwrap();
+        let o = run_case(c, first + k);
+        writeln!(out, "{}\t{}\t{}\t{}\t{}\t{}", ser_case(c), o.res, o.detail, o.meta, o.rblock, o.fresh).unwrap();
         out.flush().unwrap();
     }
 }
@@ -1215,7 +1440,7 @@ fn supervise(tier: &str) {
         if hangs >= 3 {
             // the engine hangs again and again: every further hang would cost the full timeout
             while next < total {
-                writeln!(stdout, "{}\tskipped\tskipped-after-3-hangs\tskip", lines[next]).unwrap();
+                writeln!(stdout, "{}\tskipped\tskipped-after-3-hangs\tskip\tskip\tskip", lines[next]).unwrap();
                 next += 1;
             }
             break;
@@ -1252,7 +1477,7 @@ fn supervise(tier: &str) {
                     let _ = child.wait();
                     hangs += 1;
                     if next < total {
-                        writeln!(stdout, "{}\thang\thang\tskip", lines[next]).unwrap();
+                        writeln!(stdout, "{}\thang\thang\tskip\tskip\tskip", lines[next]).unwrap();
                         next += 1;
                     }
                     break;
@@ -1261,7 +1486,7 @@ fn supervise(tier: &str) {
                     let st = child.wait().ok();
                     if next < total {
                         let code = st.map(|s| format!("{s}")).unwrap_or_default().replace([' ', '\t'], "_");
-                        writeln!(stdout, "{}\tcrash:{}\tcrash\tskip", lines[next], code).unwrap();
+                        writeln!(stdout, "{}\tcrash:{}\tcrash\tskip\tskip\tskip", lines[next], code).unwrap();
                         next += 1;
                     }
                     break;
@@ -1277,7 +1502,7 @@ fn supervise(tier: &str) {
         if restarts > 200 {
             // the engine dies on (nearly) every case: report the rest as crashed and stop
             while next < total {
-                writeln!(stdout, "{}\tcrash:too-many-restarts\tcrash\tskip", lines[next]).unwrap();
+                writeln!(stdout, "{}\tcrash:too-many-restarts\tcrash\tskip\tskip\tskip", lines[next]).unwrap();
                 next += 1;
             }
         }
@@ -1313,15 +1538,15 @@ fn main() {
             match parse_case(&line) {
                 Ok(c) => {
                     if cmd == "src" {
-                        let names = names_of(&c);
+                        let pr = Pr { exts: c.tmpls.iter().map(|t| t.ext.as_str()).collect(), cfg: cfg_of(&c.fam) };
                         for (i, t) in c.tmpls.iter().enumerate() {
-                            println!("{}: {}", names[i], source_of(&names, t));
+                            println!("{}: {}", pr.reg(i), source_of(&pr, t));
                         }
                     }
                     for variant in 0..12 {
-                        let (r, d, m) = run_case(&c, variant);
-                        if variant == 0 || m.starts_with("diff") {
-                            println!("{}\t{}\t{}\t{}", ser_case(&c), r, d, m);
+                        let o = run_case(&c, variant);
+                        if variant == 0 || o.meta.starts_with("diff") {
+                            println!("{}\t{}\t{}\t{}\t{}\t{}", ser_case(&c), o.res, o.detail, o.meta, o.rblock, o.fresh);
                         }
                     }
                 }
